@@ -1746,6 +1746,18 @@ impl ProxySession for UdpListenerSession {
             let now = Instant::now();
             self.manager.borrow_mut().handle_timeout(now);
             self.drain_outputs(now);
+            // The timer wheel rounds a delay to the *nearest* 100 ms tick, so this
+            // can run up to half a tick before the deadline it was armed for. In
+            // that case `handle_timeout` finds nothing due and — the earliest
+            // deadline being unchanged — emits no fresh `ArmTimer`: without the
+            // re-arm below the wheel would hold nothing for this listener and the
+            // flow would never be reaped (until unrelated traffic moved the
+            // deadline). The wheel entry that just fired is gone, so always arm
+            // again for whatever deadline the manager still has.
+            let pending = self.manager.borrow().poll_timeout();
+            if let Some(deadline) = pending {
+                self.arm_timer(deadline, Instant::now());
+            }
             // Re-arm: the manager emits a fresh ArmTimer via poll_output if a
             // flow is still scheduled (handled inside drain_outputs). Nothing
             // to do here. Never close the listener on a flow timeout.
